@@ -22,6 +22,8 @@ META = {
 }
 
 GEN_FILES = ['tools/zonedb/argenerator.py', 'tools/zonedb/pygenerator.py', 'tools/zonedb/zonelistgenerator.py', 'tools/validation/arvalgenerator.py']
+COMPILE_PATH = GEN_FILES + ['tools/zonedb/ingenerator.py', 'tools/zonedb/bufestimator.py', 'tools/tzdb/extractor.py', 'tools/tzdb/transformer.py',
+                            'tools/tzdb/tzdbcollector.py', 'tools/tzcompiler.py']
 ORDERED_OK = {
     # loop iterable (unparsed) -> reason it is deterministic although it is a map without sorted()
     'letters.items()': 'indexed letters map is an OrderedDict filled from sorted(letters) in _collect_letter_strings()',
@@ -40,8 +42,10 @@ def run(cfg):
     R.rule('R3', 'InlineGenerator and PythonGenerator take every table key from the same source field; key sets equal the TypedDicts', floor=20)
     R.rule('R4', 'every num* placeholder is len() of, or a counter over, the collection rendered beside it', floor=12)
     R.rule('R6', 'checked-in tools/zonedbpy: counts, map keys, policy references, entries == recorded lines; basic subset of extended', floor=1500)
+    R.rule('R1-set', 'no order-dependent computation walks a set without sorted() anywhere on the compile path', floor=2)
     mods = [py.load(cfg, f) for f in GEN_FILES]
     order_rule(R, mods)
+    set_order_rule(R, [py.load(cfg, f) for f in COMPILE_PATH])
     template_rule(R, mods)
     counter_rule(R, mods)
     inline_rule(cfg, R)
@@ -81,6 +85,139 @@ def order_rule(R, mods):
                 if renders:
                     R.violation('R1', c, m.loc(n), 'rendered text is accumulated while iterating %s without sorted(): the output order follows the insertion/hash '
                                 'order of the input' % src)
+
+
+ORDER_FREE_CONSUMERS = {'sorted', 'set', 'frozenset', 'len', 'min', 'max', 'sum', 'any', 'all'}
+
+
+SET_WALK_OK = {
+    'tzcompiler.main:walk(actions)': 'dispatch over the requested actions: every arm writes its own files (zonedb sources / tzdb.json / zones.txt) '
+                                     'from the same tzdb value and no arm binds a name another arm reads (checked: the body is a pure if/elif '
+                                     'dispatch on the loop variable without assignments), so the order of the walk only orders independent writes',
+}
+
+
+def _is_dispatch_loop(n):
+    """for v in S: if v == K1: <calls> elif v == K2: <calls> ... else: <calls>  with no assignment in any arm except fresh locals
+    that are used only inside the arm that binds them."""
+    if len(n.body) != 1 or not isinstance(n.body[0], ast.If) or not isinstance(n.target, ast.Name):
+        return False
+    cur = n.body[0]
+    arms = []
+    while True:
+        t = cur.test
+        if not (isinstance(t, ast.Compare) and isinstance(t.left, ast.Name) and t.left.id == n.target.id and len(t.ops) == 1
+                and isinstance(t.ops[0], ast.Eq) and isinstance(t.comparators[0], ast.Constant)):
+            return False
+        arms.append(cur.body)
+        if len(cur.orelse) == 1 and isinstance(cur.orelse[0], ast.If):
+            cur = cur.orelse[0]
+            continue
+        arms.append(cur.orelse)
+        break
+    bound = []
+    for arm in arms:
+        b = set()
+        for s in arm:
+            for x in ast.walk(s):
+                if isinstance(x, (ast.AugAssign, ast.Global, ast.Nonlocal)):
+                    return False
+                if isinstance(x, ast.Assign):
+                    for tg in x.targets:
+                        if not isinstance(tg, ast.Name):
+                            return False
+                        b.add(tg.id)
+        bound.append(b)
+    for i, arm in enumerate(arms):
+        reads = {x.id for s in arm for x in ast.walk(s) if isinstance(x, ast.Name) and isinstance(x.ctx, ast.Load)}
+        for j, b in enumerate(bound):
+            if j != i and reads & b:
+                return False
+    return True
+
+
+def _set_locals(f):
+    """names of the function that are bound to a set: x = set(...), a set display/comprehension, or annotated Set[...]"""
+    out = {}
+    for x in ast.walk(f.node):
+        tgt = val = ann = None
+        if isinstance(x, ast.Assign) and len(x.targets) == 1 and isinstance(x.targets[0], ast.Name):
+            tgt, val = x.targets[0].id, x.value
+        elif isinstance(x, ast.AnnAssign) and isinstance(x.target, ast.Name):
+            tgt, val, ann = x.target.id, x.value, ast.unparse(x.annotation)
+        if tgt is None:
+            continue
+        is_set = isinstance(val, (ast.Set, ast.SetComp)) or (
+            isinstance(val, ast.Call) and isinstance(val.func, ast.Name) and val.func.id in ('set', 'frozenset')) or (
+            ann is not None and re.match(r'^(typing\.)?(Set|FrozenSet|set|frozenset)\b', ann) is not None)
+        if is_set:
+            out[tgt] = x
+        elif tgt in out and val is not None:
+            del out[tgt]          # rebound to something else (e.g. x = sorted(x))
+    return out
+
+
+def set_order_rule(R, mods):
+    """A set has no defined iteration order across interpreter runs (string hashing is seeded per process): whatever is
+    computed by walking one must be order-free, or walk sorted(set)."""
+    for m in mods:
+        modn = m.rel.split('/')[-1][:-3]
+        for q, f in m.funcs.items():
+            sets = _set_locals(f)
+            if not sets:
+                continue
+            parents = {}
+            for p in ast.walk(f.node):
+                for ch in ast.iter_child_nodes(p):
+                    parents[ch] = p
+            for n in ast.walk(f.node):
+                it = None
+                if isinstance(n, ast.For):
+                    it = n.iter
+                elif isinstance(n, ast.comprehension):
+                    it = n.iter
+                elif isinstance(n, ast.Call) and isinstance(n.func, ast.Attribute) and n.func.attr == 'join' and len(n.args) == 1:
+                    it = n.args[0]
+                elif isinstance(n, ast.Call) and isinstance(n.func, ast.Name) and n.func.id in ('list', 'tuple', 'enumerate') and len(n.args) >= 1:
+                    it = n.args[0]
+                if isinstance(n, ast.Call) and isinstance(n.func, ast.Name) and n.func.id == 'sorted' and n.args and \
+                        isinstance(n.args[0], ast.Name) and n.args[0].id in sets:
+                    R.instance('R1-set', '%s.%s:sorted(%s)' % (modn, q, n.args[0].id), m.loc(n))
+                    continue
+                if not (isinstance(it, ast.Name) and it.id in sets):
+                    continue
+                c = '%s.%s:walk(%s)' % (modn, q, it.id)
+                R.instance('R1-set', c, m.loc(n if hasattr(n, 'lineno') else it))
+                if isinstance(n, ast.For):
+                    # order-free bodies: only set.add / dict[key] = value / counters by constants
+                    free = True
+                    for x in ast.walk(ast.Module(body=n.body, type_ignores=[])):
+                        if isinstance(x, ast.Call):
+                            fn = x.func
+                            if isinstance(fn, ast.Attribute) and fn.attr in ('add', 'discard', 'update') :
+                                continue
+                            if isinstance(fn, ast.Name) and fn.id in ORDER_FREE_CONSUMERS | {'isinstance', 'int', 'str'}:
+                                continue
+                            free = False
+                        elif isinstance(x, ast.AugAssign) and not isinstance(x.value, ast.Constant):
+                            free = False
+                    if free:
+                        continue
+                    if c in SET_WALK_OK and _is_dispatch_loop(n):
+                        R.exception('R1-set', c, SET_WALK_OK[c])
+                        continue
+                else:
+                    # a comprehension / join / list() is fine when an order-free consumer takes it directly
+                    holder = n
+                    if isinstance(n, ast.comprehension):
+                        holder = next(p for p in ast.walk(f.node) if isinstance(p, (ast.ListComp, ast.GeneratorExp, ast.SetComp, ast.DictComp)) and n in p.generators)
+                        if isinstance(holder, (ast.SetComp, ast.DictComp)):
+                            continue
+                    par = parents.get(holder)
+                    if isinstance(par, ast.Call) and isinstance(par.func, ast.Name) and par.func.id in ORDER_FREE_CONSUMERS and holder in par.args:
+                        continue
+                R.violation('R1-set', c, m.loc(it), 'the set %s is walked without sorted() and what is computed depends on the order of the walk: '
+                            'the generated text differs between interpreter runs (per-process string hash seed)' % it.id)
 
 
 def placeholders(text):
@@ -381,6 +518,11 @@ SELFTEST = [
          replace='        for zone_name, eras in self.zones_map.items():\n            info_items += self.ZONE_INFOS_H_INFO_ITEM.format(', rule='R1'),
     dict(id='unsorted-python-policy-loop', file='tools/zonedb/pygenerator.py',
          find='        for name, rules in sorted(rules_map.items()):\n            policy_items +=', replace='        for name, rules in rules_map.items():\n            policy_items +=', rule='R1'),
+    dict(id='letters-set-walked-unsorted', file='tools/zonedb/argenerator.py', find='            for letter in sorted(letters):', replace='            for letter in letters:', rule='R1-set'),
+    dict(id='letters-set-listed-unsorted', file='tools/zonedb/argenerator.py', find='            for letter in sorted(letters):', replace='            for letter in list(letters):', rule='R1-set'),
+    dict(id='actions-dispatch-carries-state', file='tools/tzcompiler.py', find="        elif action == 'tzdb':\n            logging.info('======== Creating JSON zonedb files')",
+         replace="        elif action == 'tzdb':\n            invocation += ' tzdb'\n            logging.info('======== Creating JSON zonedb files')", rule='R1-set'),
+    dict(id='letters-sorted-with-key-silent', file='tools/zonedb/argenerator.py', find='            for letter in sorted(letters):', replace='            for letter in sorted(letters, key=str):', expect='silent'),
     dict(id='placeholder-without-argument', file='tools/zonedb/pygenerator.py', find='            numEras=num_eras,\n', replace='', rule='R2'),
     dict(id='inline-uses-untruncated-field', file='tools/zonedb/ingenerator.py', find="                    'atSeconds': rule['atSecondsTruncated'],", replace="                    'atSeconds': rule['atSeconds'],", rule='R3'),
     dict(id='file-generator-crosses-fields', file='tools/zonedb/pygenerator.py', find="            untilMonth=era['untilMonth'],", replace="            untilMonth=era['untilDay'],", rule='R3'),
